@@ -1,5 +1,6 @@
 import Swat4.Drv.RepCommon
 import Swat4.Model.BrowserReq06
+import Swat4.Model.ReporterReach
 /-!
 Driver side of C06.
 
@@ -17,20 +18,8 @@ Driver side of C06.
 namespace Swat4.Drv.C06
 open Swat4 Swat4.Drv Swat4.Drv.Rep Swat4.Heartbeat Swat4.BrowserReq06
 
-/-- `C06.reachesUseCase` (duplicated here so that the driver does not import a Properties module) -/
-def reaches (srcIp : Nat) (payload : Bytes) : Bool :=
-  match payload with
-  | [] => false
-  | t :: _ =>
-    if t.toNat = Facts.reporterMsgHeartbeat then
-      match parseInstanceID payload with
-      | none => false
-      | some (_, rest) =>
-        match parseHeartbeatParams rest with
-        | none => false
-        | some fields => !fields.isEmpty && (Swat4.Heartbeat.parseAddr srcIp fields).isSome
-    else if t.toNat = Facts.reporterMsgKeepalive then (parseInstanceID payload).isSome
-    else false
+/-- `C06.reachesUseCase`: both are names of `Heartbeat.reachesUseCase` (`Model/ReporterReach.lean`) -/
+abbrev reaches (srcIp : Nat) (payload : Bytes) : Bool := Swat4.Heartbeat.reachesUseCase srcIp payload
 
 def oracleStep (r : StepRec) : Option String :=
   if r.implOutcome.startsWith "panic" && !r.dg.payload.isEmpty then some "sig=udp-panic"
